@@ -8,46 +8,20 @@ From PySMT.proofs Require Import Script_proofs TrackSolver_proofs.
 Import ListNotations.
 
 (* ---- SmtLibScript.get_last_formula(return_optimizations=True) ------------------------ *)
-(* Full-strength clause: forall legal cs, get_last_formula cs = Ok (live assertions, live goals).
-   It is FALSE of the faithful model: witness push 1; assert-soft a :id x; pop 1 (KeyError). *)
-Theorem C16_script_last_formula_refuted :
-  exists cs : list (cmd nat nat), legal cs /\ get_last_formula cs = Err KeyError.
-Proof. exact last_formula_refuted. Qed.
-(* provable part 1: on every legal command list, whatever is returned is exactly the live
-   assertions and the live goals (goal objects reported without the assert-soft id) *)
-Theorem C16_script_last_formula_partial : forall (F W : Type) (cs : list (cmd F W)) s r,
-  s_run s_init cs = Some s -> get_last_formula cs = Ok r ->
-  r = (live_assertions s, map erase (live_goals s)).
-Proof. exact last_formula_partial. Qed.
-(* provable part 2, exact side condition `safe`: no pop is executed while a MaxSMT goal
-   created since the last push/pop/reset-assertions is live; then a result is returned *)
-Theorem C16_script_last_formula_total_when_safe : forall (F W : Type) (cs : list (cmd F W)) s,
-  s_run s_init cs = Some s -> safe s_init false cs = true ->
+(* on EVERY legal command list a result is returned and it is exactly the live assertions
+   and the live goals (goal objects are reported without the assert-soft id) *)
+Theorem C16_script_last_formula : forall (F W : Type) (cs : list (cmd F W)) s,
+  s_run s_init cs = Some s ->
   get_last_formula cs = Ok (live_assertions s, map erase (live_goals s)).
-Proof. exact last_formula_total. Qed.
-(* in particular for every legal script without assert-soft *)
-Theorem C16_script_last_formula_without_assert_soft : forall (F W : Type) (cs : list (cmd F W)) s,
-  forallb no_soft cs = true -> s_run s_init cs = Some s ->
-  get_last_formula cs = Ok (live_assertions s, map erase (live_goals s)).
-Proof. exact last_formula_no_soft. Qed.
+Proof. exact last_formula_live. Qed.
 
 (* ---- SmtLibScript.get_strict_formula ------------------------------------------------- *)
-(* Full-strength clause: whenever it returns l on a legal script, l = live assertions.
-   FALSE of the faithful model: witness assert a; reset-assertions; check-sat reports [a]. *)
-Theorem C16_script_strict_formula_refuted :
-  exists (cs : list (cmd nat nat)) l s, s_run s_init cs = Some s /\
-    get_strict_formula cs = Ok l /\ l <> live_assertions s.
-Proof. exact strict_formula_refuted. Qed.
-(* exact characterisation: the script is legal and the answer is the live assertions
-   preceded by every assertion removed by a reset-assertions *)
-Theorem C16_script_strict_formula_exact : forall (F W : Type) (cs : list (cmd F W)) l,
+(* whenever it returns (no push/pop, exactly one check-sat) the script is legal and the
+   answer is exactly the live assertions *)
+Theorem C16_script_strict_formula : forall (F W : Type) (cs : list (cmd F W)) l,
   get_strict_formula cs = Ok l ->
-  exists s, s_run s_init cs = Some s /\ l = dropped [] cs ++ live_assertions s.
-Proof. exact strict_formula_exact. Qed.
-Theorem C16_script_strict_formula_partial : forall (F W : Type) (cs : list (cmd F W)) l,
-  existsb is_reset cs = false -> get_strict_formula cs = Ok l ->
   exists s, s_run s_init cs = Some s /\ l = live_assertions s.
-Proof. exact strict_formula_partial. Qed.
+Proof. exact strict_formula_live. Qed.
 
 (* ---- IncrementalTrackingSolver -------------------------------------------------------- *)
 (* after any legal history (queries and reads of `assertions` anywhere in it) the solver does
@@ -70,13 +44,8 @@ Theorem C16_solver_oneshot_restores : forall (F : Type) (fnot : F -> F) (cs : li
                        t_step fnot c q = Ok c2 /\ assertions c2 = Ok (c3, a).
 Proof. exact oneshot_restores. Qed.
 
-Print Assumptions C16_script_last_formula_refuted.
-Print Assumptions C16_script_last_formula_partial.
-Print Assumptions C16_script_last_formula_total_when_safe.
-Print Assumptions C16_script_last_formula_without_assert_soft.
-Print Assumptions C16_script_strict_formula_refuted.
-Print Assumptions C16_script_strict_formula_exact.
-Print Assumptions C16_script_strict_formula_partial.
+Print Assumptions C16_script_last_formula.
+Print Assumptions C16_script_strict_formula.
 Print Assumptions C16_solver_tracks_live.
 Print Assumptions C16_solver_tracks_live_every_step.
 Print Assumptions C16_solver_oneshot_restores.
